@@ -59,6 +59,7 @@ type gen struct {
 	oneBucket bool
 	paged   bool
 	focus   map[string]string
+	flip    bool // the second half of a twin: every bucket choice is moved to the next bucket
 	images  int
 	seed0   int64
 	configs int
@@ -107,6 +108,21 @@ func (g *gen) fpick(slot string, xs []string) string {
 	return pick(g.r, xs)
 }
 
+// bpick picks a bucket like fpick; in the second execution of a "twin" (the
+// same call once more, right behind the first, with only the bucket changed)
+// it returns the bucket after the one the first execution chose.
+func (g *gen) bpick(slot string, xs []string) string {
+	v := g.fpick(slot, xs)
+	if g.flip {
+		for i, x := range xs {
+			if x == v {
+				return xs[(i+1)%len(xs)]
+			}
+		}
+	}
+	return v
+}
+
 func modeOf(s string, r *rand.Rand) nutsdb.EntryIdxMode {
 	switch s {
 	case "keyval":
@@ -136,7 +152,7 @@ func (g *gen) val() []byte { return []byte(pick(g.r, vals)) }
 
 // kvWrite performs one random KV write inside t.
 func (g *gen) kvWrite(t *hx.Tx) {
-	b := g.fpick("kvb", g.u.KvBuckets)
+	b := g.bpick("kvb", g.u.KvBuckets)
 	k := []byte(g.fpick("kvk", kvKeys))
 	now := uint64(time.Now().Unix())
 	switch g.r.Intn(10) {
@@ -614,7 +630,7 @@ var stVals = []string{"a", "b", "", "m|n", "c"}
 
 // lsMut performs one random mutating list call.
 func (g *gen) lsMut(t *hx.Tx) {
-	b, k := g.fpick("lsb", g.u.LsBuckets), g.fpick("lsk", g.u.LsKeys)
+	b, k := g.bpick("lsb", g.u.LsBuckets), g.fpick("lsk", g.u.LsKeys)
 	n := g.lsSize(t, b, k)
 	switch g.r.Intn(12) {
 	case 0, 1, 2:
@@ -660,7 +676,7 @@ func (g *gen) lsReads(t *hx.Tx, full bool) {
 }
 
 func (g *gen) stMut(t *hx.Tx) {
-	b, k := g.fpick("stb", g.u.StBuckets), g.fpick("stk", g.u.StKeys)
+	b, k := g.bpick("stb", g.u.StBuckets), g.fpick("stk", g.u.StKeys)
 	items := func() [][]byte {
 		vs := [][]byte{[]byte(g.fpick("stv", stVals))}
 		for g.r.Intn(3) == 0 {
@@ -714,7 +730,7 @@ func (g *gen) stReads(t *hx.Tx, full bool) {
 }
 
 func (g *gen) zMut(t *hx.Tx) {
-	b := g.fpick("zsb", g.u.ZsBuckets)
+	b := g.bpick("zsb", g.u.ZsBuckets)
 	n := g.zCard(t, b)
 	switch g.r.Intn(10) {
 	case 0, 1, 2, 3, 4:
@@ -1083,6 +1099,10 @@ func (g *gen) histMixed(o mixOpts) {
 				nops += 1 + g.r.Intn(3)
 			}
 			collide := o.buckets != nil && g.r.Intn(100) < 30
+			// a twin transaction: every call is made twice in a row, the second
+			// time on the next bucket (equal keys, values and flags side by side
+			// in the pending writes - only the bucket tells the entries apart)
+			twin := nops > 1 && !focused && g.r.Intn(5) == 0
 			// the operations of the transaction, reproducible from opSeed (the
 			// fault sweep below runs the same transaction several times)
 			opSeed := g.r.Int63()
@@ -1113,6 +1133,14 @@ func (g *gen) histMixed(o mixOpts) {
 				for j := 0; j < nops; j++ {
 					if j == bigAt {
 						t.Put(pick(g.r, g.u.KvBuckets), []byte(pick(g.r, kvKeys)), big, 0)
+					} else if twin {
+						s1 := g.r.Int63()
+						outer := g.r
+						g.r = rand.New(rand.NewSource(s1))
+						g.mutOne(t, kinds)
+						g.r, g.flip = rand.New(rand.NewSource(s1)), true
+						g.mutOne(t, kinds)
+						g.r, g.flip = outer, false
 					} else {
 						g.mutOne(t, kinds)
 					}
